@@ -80,6 +80,7 @@ pub mod unit_mh {
                 r.current_state@ == initial_state@,   // [C09.mh_chain_new_state]
                 r.target == target,
                 r.proposal == proposal,
+                os_seeded(state(r.rng)),
         //@body id=mh_chain_new file=src/metropolis_hastings.rs impl_self=MHMarkovChain name=new props=C09,C08
         //@sig fn new (target : D , proposal : Q , initial_state : Vec < S >) -> Self
         //@rules
@@ -94,6 +95,7 @@ pub mod unit_mh {
                 forall |c: int| 0 <= c < r.chains@.len() ==> (#[trigger] r.chains@[c]).target == target,
                 forall |c: int, a: Seq<S>, b: Seq<S>| 0 <= c < r.chains@.len() ==> (#[trigger] r.chains@[c].proposal.lq(a, b)) == proposal.lq(a, b),
                 forall |i: int, j: int| 0 <= i < j < r.chains@.len() ==> r.chains@[i].proposal.stream() != r.chains@[j].proposal.stream(),  // [C08.mh_new_proposal_streams_distinct]
+                forall |i: int, j: int| 0 <= i < r.chains@.len() && 0 <= j < r.chains@.len() ==> r.chains@[i].proposal.stream() != state(r.chains@[j].rng),   // [C08.mh_new_proposal_never_seeded_like_an_acceptance_generator]
         //@body id=mh_new file=src/metropolis_hastings.rs impl_self=MetropolisHastings name=new props=C09,C08
         //@sig fn new (target : D , proposal : Q , initial_states : Vec < Vec < S > >) -> Self
         //@rules R-enum
@@ -105,7 +107,7 @@ pub mod unit_mh {
         //@|     it.history@ + it.iter.remaining() == init0,
         //@|     chains@.len() == it.history@.len(), i == chains@.len(), i + it.iter.remaining().len() == init0.len(),
         //@|     forall |c: int| 0 <= c < chains@.len() ==> (#[trigger] chains@[c]).current_state@ == init0[c]@ && chains@[c].target == target
-        //@|         && chains@[c].proposal.stream() == seeded(u64_wadd(base_seed, c)),
+        //@|         && chains@[c].proposal.stream() == seeded(u64_wadd(base_seed, c)) && os_seeded(state(chains@[c].rng)),
         //@|     forall |c: int, a: Seq<S>, b: Seq<S>| 0 <= c < chains@.len() ==> (#[trigger] chains@[c].proposal.lq(a, b)) == proposal.lq(a, b),
         //@anchor cnt scope=loop:1 pos=after match="^chains \\. push"
         //@| proof { assert(chains.len() == chains@.len()); }
@@ -113,6 +115,9 @@ pub mod unit_mh {
         //@| proof {
         //@|     assert forall |i: int, j: int| 0 <= i < j < chains@.len() implies chains@[i].proposal.stream() != chains@[j].proposal.stream() by {
         //@|         ax_seeded_injective(u64_wadd(base_seed, i), u64_wadd(base_seed, j));
+        //@|     }
+        //@|     assert forall |i: int, j: int| 0 <= i < chains@.len() && 0 <= j < chains@.len() implies chains@[i].proposal.stream() != state(chains@[j].rng) by {
+        //@|         ax_os_fresh(state(chains@[j].rng), u64_wadd(base_seed, i));
         //@|     }
         //@| }
         //@end
@@ -129,22 +134,23 @@ pub mod unit_mh {
         //@body id=mh_seed file=src/metropolis_hastings.rs impl_self=MetropolisHastings name=seed props=C07,C08
         //@sig fn seed (mut self , seed : u64) -> Self
         //@rules R-mutself R-enum
-        //@anchor n0 scope=fn pos=after match="^let n_chains"
-        //@| proof { ax_vec_len_le_isize_max(&__vx_self.chains); }
+        //@anchor n0 scope=fn pos=start
+        //@| proof { ax_vec_len_le_isize_max(&self.chains); }
+        //@| let ghost nn: int = self.chains@.len() as int;
         //@loop 1 iter=it
         //@| invariant
-        //@|     it.iter.end == self.chains@.len(), n_chains == self.chains@.len(), n_chains <= isize::MAX as int,
+        //@|     it.iter.end == self.chains@.len(), nn == self.chains@.len(), nn <= isize::MAX as int, n_chains == nn,
         //@|     __vx_self.chains@.len() == self.chains@.len(),
         //@|     __vx_self.target == self.target,
         //@|     forall |k: int| 0 <= k < i ==> state((#[trigger] __vx_self.chains@[k]).rng) == seeded(mh_chain_seed(seed, k))
-        //@|         && __vx_self.chains@[k].proposal.stream() == seeded(u64_wadd(mh_chain_seed(seed, k), n_chains as int)),
+        //@|         && __vx_self.chains@[k].proposal.stream() == seeded(u64_wadd(mh_chain_seed(seed, k), nn)),
         //@|     forall |k: int| 0 <= k < self.chains@.len() ==> (#[trigger] __vx_self.chains@[k]).current_state == self.chains@[k].current_state
         //@|         && __vx_self.chains@[k].target == self.chains@[k].target,
         //@|     forall |k: int, a: Seq<S>, b: Seq<S>| 0 <= k < self.chains@.len() ==> (#[trigger] __vx_self.chains@[k].proposal.lq(a, b)) == self.chains@[k].proposal.lq(a, b),
         //@anchor fin scope=fn pos=end
         //@| proof {
         //@|     let cs = __vx_self.chains@;
-        //@|     let n = n_chains as int;
+        //@|     let n = nn;
         //@|     assert forall |i: int, j: int| 0 <= i < j < cs.len() implies cs[i].proposal.stream() != cs[j].proposal.stream() && state(cs[i].rng) != state(cs[j].rng) by {
         //@|         ax_seeded_injective(u64_wadd(mh_chain_seed(seed, i), n), u64_wadd(mh_chain_seed(seed, j), n));
         //@|         ax_seeded_injective(mh_chain_seed(seed, i), mh_chain_seed(seed, j));
